@@ -9,7 +9,7 @@ from ..core.srcmodel import dotted, unparse, norm, walk_no_nested, AnalysisError
 
 P9 = 'abacusnbody/data/pack9.py'
 RA = 'abacusnbody/data/read_abacus.py'
-FILES = [P9]
+FILES = [P9, 'abacusnbody/data/read_abacus.py']
 
 
 def run(chk):
@@ -23,11 +23,15 @@ def run(chk):
     chk.rule('C15-R1', 'nibble expansion is a bijection: 6 x 12 distinct input bits at positions 0-11; bias -2048 on all six', 8)
     chk.rule('C15-R2', 'record discipline: header branch stores no output; particle branch stores at the write counter, +1 once; counter returned; wrapper truncates', 5)
     chk.rule('C15-R3', 'axis agreement: pos_a from short a and cell_a (header short 3+a); vel_a from short 3+a; one consistent bias', 7)
+    chk.rule('C15-R6', 'read_asdf: a pack9 read keeps max(npos, nvel) rows, so the particle count does not depend on which of pos / vel was requested', 1)
     chk.rule('C15-R5', 'output selection: pos/vel stores under their own flags only; wrapper treats posout/velout symmetrically', 2)
     chk.assume('no independent description of the pack9 constants exists in the repository: the oracle is internal consistency plus the property statement')
     expand(chk)
     unpack(chk)
     wrapper(chk)
+    from . import c16
+    ok6, why6, node6 = c16.decoder_call(src, 'unpack_pack9')
+    chk.check(ok6, 'C15-R6', c16.RA, c16.Q, 'pack9 branch of read_asdf: buffers, scales and row count', '', f'unpack_pack9 in read_asdf: {why6}', node=node6)
 
 
 def expand(chk):
